@@ -133,3 +133,75 @@ Proof. split; [apply reach_sound | apply reach_complete]. Qed.
 
 Lemma tc_all : map (check [] tc) allk = [Accept; Accept; Accept; Accept] /\ panic_guard tc /\ forall k, well_formed [] tc k.
 Proof. exact (conj tc_accepted (conj tc_guard tc_well_formed)). Qed.
+
+(* ------------------------------------------------------------------ the position of an attribute (stage 0) *)
+
+Definition b_rule : bare := BPlain (BRule {| s_heads := [HClause 1 2]; s_body := [SClause 0 [AVar x; AVar y] []] |}).
+Definition b_mac : bare := BPlain (BMacro {| m_name := 0; m_nparams := 1; m_body := [SClause 0 [AVar 0; AWild] []] |}).
+Definition b_inc : bare := BInclude [([], B1Plain (BRel 2 [0] false))].
+Definition b_rel (n : nat) : bare := BPlain (BRel n [0; 0] false).
+Definition mk_text (sig : option (list rattr)) (items : list (list rattr * bare)) : text := {| t_attrs := []; t_sig := sig; t_items := items |}.
+
+(* attributes a in front of item b: as the FIRST item and after the declarations, without a signature, with one, with
+   one that carries attributes of its own *)
+Definition attr_positions (a : list rattr) (b : bare) : list text :=
+  flat_map (fun sig => [mk_text sig [(a, b); ([], b_rel 0); ([], b_rel 1)]; mk_text sig [([], b_rel 0); ([], b_rel 1); (a, b)];
+                        mk_text sig [([ROther], b_rel 0); (a, b); ([], b_rel 1)]])
+           [None; Some []; Some [ROther]].
+Definition attr_cases : list text :=
+  flat_map (fun a => flat_map (attr_positions a) [b_rule; b_mac; b_inc]) [[ROther]; [RDs]; [ROther; RDs]].
+
+Lemma attr_positions_rejected :
+  map (fun T => (map (invoke_text [] T) allk, map (check_text [] T) allk)) attr_cases =
+  repeat (repeat (Reject EUnexpectedAttr) 4, repeat (Reject EUnexpectedAttr) 4) 81.
+Proof. vm_compute. reflexivity. Qed.
+
+(* the controls: the same attributes on the first RELATION of a signature-less text are handed to that relation (and to no
+   other), and attributes in front of the signature are the struct's *)
+Definition t_first_rel_attr : text := mk_text None [([ROther; RDs], b_rel 0); ([], b_rel 1); ([], b_rule)].
+Definition t_sig_attr : text := mk_text (Some [ROther; RDs]) [([], b_rel 0); ([], b_rel 1); ([], b_rule)].
+Lemma attr_controls :
+  map (check_text [] t_first_rel_attr) allk = [Accept; Accept; Accept; Accept] /\
+  map (check_text [] t_sig_attr) allk = [Accept; Accept; Accept; Accept] /\
+  map d_attrs (decls_of (match flatten 0 (p_items (parse_text t_first_rel_attr)) with OK its => its | _ => [] end)) = [[ROther; RDs]; []] /\
+  map d_attrs (decls_of (match flatten 0 (p_items (parse_text t_sig_attr)) with OK its => its | _ => [] end)) = [[]; []] /\
+  sig_attrs t_sig_attr = Some [ROther; RDs] /\ sig_attrs t_first_rel_attr = None.
+Proof. vm_compute. repeat split. Qed.
+
+(* ------------------------------------------------------------------ rebinding through a parenthesised pattern
+   path(x, y) <-- edge(x, y), let (x) = e        [vars] = the helper that reports the variables of a pattern *)
+
+Definition p_shadow_paren (vars : pat ident -> list ident) : program :=
+  with_rule (rule [HClause 1 2] [SClause 0 [AVar x; AVar y] []; SCond (CLet (vars (PParen (PVar x))))]).
+(* the same through the other binders: if let Some((x)), for ((x), _), agg (x), edge(?&(x), _), a condition attached to a clause *)
+Definition p_shadow_paren_forms (vars : pat ident -> list ident) : list program :=
+  map (fun its => with_rule (rule [HClause 1 2] (SClause 0 [AVar x; AVar y] [] :: its)))
+    [ [SCond (CIfLet (vars (PSeq [PParen (PVar x)])))];
+      [SGen (vars (PSeq [PParen (PVar x); PWild]))];
+      [SAgg (vars (PParen (PVar x))) [z] 0 [GVar z; GWild]];
+      [SClause 0 [APat (vars (PRef (PParen (PVar x)))); AWild] []];
+      [SClause 0 [AVar z; AWild] [CLet (vars (PParen (PParen (PVar x))))]] ].
+
+Lemma shadow_paren_bound : In x (pat_binds (PParen (PVar x))) /\ ~ In x (pat_vars false (PParen (PVar x))).
+Proof. split; [now left | intros []]. Qed.
+
+Lemma shadow_paren_verdicts :
+  map (check [] (p_shadow_paren pat_binds)) allk = repeat (Reject (EShadow x)) 4 /\
+  map (check [] (p_shadow_paren (pat_vars true))) allk = repeat (Reject (EShadow x)) 4 /\
+  map (check [] (p_shadow_paren (pat_vars false))) allk = repeat Accept 4 /\
+  map (fun P => map (check [] P) allk) (p_shadow_paren_forms pat_binds) = repeat (repeat (Reject (EShadow x)) 4) 5 /\
+  map (fun P => map (check [] P) allk) (p_shadow_paren_forms (pat_vars false)) = repeat (repeat Accept 4) 5.
+Proof. vm_compute. repeat split. Qed.
+
+(* "rebinding an already bound variable is rejected" fails for the helper without the Pat::Paren arm: the program in
+   which the rebinding is visible to the check is rejected, the same program seen through that helper is accepted *)
+Lemma shadow_paren_refutes : exists (mk : (pat ident -> list ident) -> program) (v : ident),
+  (forall k, check [] (mk pat_binds) k = Reject (EShadow v)) /\ (forall k, check [] (mk (pat_vars false)) k = Accept).
+Proof. exists p_shadow_paren, x. split; intros k; destruct k; vm_compute; reflexivity. Qed.
+
+(* a WELL-FORMED program hit by the same hole:  path(x, z) <-- edge(x, y), let (z) = e, edge(z, _)  — the helper does
+   not report z, so the second clause does not JOIN on z: it binds a new z (the model's event is a first occurrence) *)
+Definition p_paren_join (vars : pat ident -> list ident) : program :=
+  with_rule (rule [HClause 1 2] [SClause 0 [AVar x; AVar y] []; SCond (CLet (vars (PParen (PVar z)))); SClause 0 [AVar z; AWild] []]).
+Lemma paren_join_accepted : map (check [] (p_paren_join pat_binds)) allk = repeat Accept 4 /\ map (check [] (p_paren_join (pat_vars false))) allk = repeat Accept 4.
+Proof. vm_compute. split; reflexivity. Qed.
